@@ -346,7 +346,7 @@ def run_c08(tier, seed):
     cold = replay_histories([[c] for c in cases], drv, split_depth=1, label="c08_cold")
     oc = {o["key"]: o["detail"] for o in cold["obs"]}
     ndiff = 0
-    for rnd in range(1 if tier == "quick" else 4):
+    for rnd in range(1 if tier == "quick" else 2):
         order = list(cases)
         random.Random(seed * 100 + rnd).shuffle(order)
         warm = replay_histories([order[i::12] + order[i::12][:150] for i in range(12)], drv, split_depth=1, label="c08_warm")
